@@ -142,6 +142,10 @@ class RealConfig:
         self.pids: dict[str, int] = {}
         # the harness's own record of the latest select/create event (independent of the model)
         self.pick: tuple[str, str] | None = None
+        # every profile ever picked: uuid of the profile that a select/create event designated, and
+        # (name, environment) of select events that named no stored profile
+        self.picked_ids: set[str] = set()
+        self.picked_dangling: set[tuple[str, str]] = set()
 
     def close(self) -> None:
         if self._old is None:
@@ -164,6 +168,14 @@ class RealConfig:
                 "SELECT id, name, api_url, project_id, api_key, api_key_id, device_oidc FROM profiles").fetchall()
         conn.close()
         return envs, profs
+
+    def _picked(self, name: str, env_url: str, profile: Any) -> None:
+        """Record a select/create event: the name, the environment current when the operation started, the profile."""
+        self.pick = (name, env_url)
+        if profile is not None:
+            self.picked_ids.add(profile.id)
+        else:
+            self.picked_dangling.add((name, env_url))
 
     def _pid(self, uuid: str) -> str:
         return str(self.pids[uuid]) if uuid in self.pids else "?" + uuid
@@ -216,23 +228,27 @@ class RealConfig:
             auth_svc = self.svc.current_auth_service()
             if k == "create-token":
                 a = auth_svc.create_profile_from_token(op[1], op[2])
-                self.pick = (a.name, env_before)
+                self._picked(a.name, env_before, a)
                 return f"profile {self._note_created(a)} {enc(a.name)}"
             if k == "create-oidc":
                 d = I["DeviceOIDC"](device_name="verif-host", user_id=op[2], email=op[3], client_id="cid",
                                     discovery_url="https://idp.invalid/.well-known", device_access_token=op[4])
                 a = auth_svc.create_or_update_profile_from_oidc(op[1], d)
-                self.pick = (a.name, env_before)
+                self._picked(a.name, env_before, a)
                 return f"profile {self._note_created(a)} {enc(a.name)}"
             if k == "select":
+                target = auth_svc.get_profile(op[1])
                 auth_svc.set_current_profile(op[1])
-                self.pick = (op[1], env_before)
+                self._picked(op[1], env_before, target)
                 return "ok"
             if k == "select-any":
                 listed = auth_svc.list_profiles()
                 auth_svc.select_any_profile()
                 if listed:
-                    self.pick = (listed[0].name, env_before)
+                    # whichever profile the service selected is the pick ("any"): read it back
+                    chosen = self.cm.get_settings_current_profile_name()
+                    if chosen is not None:
+                        self._picked(chosen, env_before, next((p for p in listed if p.name == chosen), None))
                 return "ok"
             if k == "delete":
                 return "true" if asyncio.run(auth_svc.delete_profile(op[1])) else "false"
